@@ -208,14 +208,15 @@ class Evaluator:
         self.npaths = 0
 
     # ------------------------------------------------------------- top level
-    def run(self, fn: FuncInfo, args: Dict[str, Any], self_attrs: Optional[Dict[str, Any]] = None, base: Any = "entry") -> List[Case]:
+    def run(self, fn: FuncInfo, args: Dict[str, Any], self_attrs: Optional[Dict[str, Any]] = None, base: Any = "entry",
+            self_cls: Optional[ClassInfo] = None) -> List[Case]:
         """Evaluate fn with parameter bindings *args* (values of this domain); buffer parameters are bound to ('buffer',)."""
         self.npaths = 0
         st = State()
         st.base = base
         st.env.update(args)
         if self_attrs is not None:
-            st.env["self"] = ("selfobj", fn.cls.name if fn.cls else "?", _freeze(self_attrs))
+            st.env["self"] = ("selfobj", (self_cls or fn.cls).name if (self_cls or fn.cls) else "?", _freeze(self_attrs))
         out = []
         for st2, oc in self.call_body(fn, st, 0):
             out.append(Case(st2.conds, oc[0], oc[1] if len(oc) > 1 else None, st2.reads, st2.stores, st2.notes))
@@ -666,27 +667,27 @@ class Evaluator:
             bound = isinstance(f, ast.Attribute) and not (isinstance(f.value, ast.Name) and self.prog.lookup(fn.module, f.value.id) and self.prog.lookup(fn.module, f.value.id)[0] == "class")
             yield from self._inline(targets[0], e, st, fn, depth, bound_self=bound and targets[0].cls is not None and not targets[0].is_static)
             return
-        # anything else: opaque call over its argument values
-        cur = st
-        keys = []
-        for a in list(e.args) + [k.value for k in e.keywords]:
-            got = list(self.expr(a, cur, fn, depth))
-            if len(got) != 1:
-                # conditional inside an argument of an opaque call: keep the first state, note it
-                cur = got[0][0].copy()
-                cur.notes = cur.notes + ("forked argument of %s" % name,)
-            else:
-                cur = got[0][0]
-            keys.append(_key(got[0][1]))
-        if isinstance(f, ast.Attribute):
-            for cur2, recv in self.expr(f.value, cur, fn, depth):
-                if f.attr == "get" and recv[0] == "const" and isinstance(recv[1], dict):
-                    yield cur2, obj("label", _key(("const", _dictkey(recv[1]))), keys[0] if keys else None)
-                else:
-                    yield cur2, obj("call", name if recv[0] != "const" else "%s.%s" % (type(recv[1]).__name__, f.attr), tuple(keys), _key(recv) if recv[0] in ("num",) else None)
-                break
-            return
-        yield cur, obj("call", name, tuple(keys))
+        # anything else: opaque call over its argument values (arguments may fork)
+        arg_nodes = list(e.args) + [k.value for k in e.keywords]
+
+        def args_rec(i, s, acc):
+            if i == len(arg_nodes):
+                yield s, acc
+                return
+            for s2, v in self.expr(arg_nodes[i], s, fn, depth):
+                yield from args_rec(i + 1, s2, acc + [v])
+        for cur, vals in args_rec(0, st, []):
+            keys = [_key(v) for v in vals]
+            te = [v for v in vals if v[0] == "typeerror"]
+            if isinstance(f, ast.Attribute):
+                for cur2, recv in self.expr(f.value, cur, fn, depth):
+                    if f.attr == "get" and recv[0] == "const" and isinstance(recv[1], dict):
+                        yield cur2, obj("label", _key(("const", _dictkey(recv[1]))), keys[0] if keys else None)
+                    else:
+                        yield cur2, obj("call", name if recv[0] != "const" else "%s.%s" % (type(recv[1]).__name__, f.attr), tuple(keys), _key(recv) if recv[0] in ("num",) else None)
+                    break
+                continue
+            yield cur, obj("call", name, tuple(keys))
 
     def _constkw(self, e, fn, default):
         try:
@@ -868,7 +869,7 @@ class Decoders:
         if m is None:
             raise AnalysisError("%s has no %s" % (row.cls.name, via))
         base = "entry" if via == "read" else row.attrs.get("offset")
-        cases = self.ev.run(m, {m.params[1]: ("buffer",)}, self_attrs=row.attrs, base=base)
+        cases = self.ev.run(m, {m.params[1]: ("buffer",)}, self_attrs=row.attrs, base=base, self_cls=row.cls)
         self._cache[key] = cases
         return cases
 
